@@ -79,7 +79,7 @@ def do_check(only=None):
     base = os.path.join(VERIF, "seeded")
     rows = []
     for d in sorted(os.listdir(base)):
-        if only and only not in d:
+        if not os.path.isdir(os.path.join(base, d)) or (only and not any(o in d for o in only.split(","))):
             continue
         meta = json.load(open(os.path.join(base, d, "meta.json")))
         props = meta.get("check_with") or [meta["property"]]
